@@ -278,16 +278,19 @@ TrStateSweep ==
     /\ IsEv("StateSweep")
     /\ LET e == E
            key == CipherKey(e.exp, e.K)
-           st == [i |-> e.st.i, p |-> e.st.p]
+           \* the state the harness BROUGHT the half into (position = bytes processed so far, carried byte = last
+           \* ciphertext byte); the state the half SHOWS in its Debug output is compared when it is shown
+           st == [i |-> e.cst.i, p |-> e.cst.p]
+           shown == HasF(e.st, "i") /\ HasF(e.st, "p")
            p == PC(e.exp) IN
        /\ UNCHANGED tvars
-       /\ DonePure(<< << p \o ".key", e.st.key = key>>,
-                      << p \o ".stateRange", e.st.i \in 0..(Len(key) - 1) /\ e.st.p \in 0..255>>,
+       /\ DonePure(<< << p \o ".key", HasF(e.st, "key") => e.st.key = key>>,
+                      << p \o ".stateRange", shown => (e.st.i \in 0..(Len(key) - 1) /\ e.st.p \in 0..255)>>,
+                      << p \o ".state", shown => (e.st.i = st.i /\ e.st.p = st.p)>>,
                       << p \o ".transition",
-                         (e.st.i \in 0..(Len(key) - 1) /\ e.st.p \in 0..255) =>
                          \A x \in 0..255 :
                             LET s == IF e.dir = "enc" THEN EncStep(key, st, x) ELSE DecStep(key, st, x)
-                            IN e.out[x + 1] = s.o /\ e.ni[x + 1] = s.i /\ e.np[x + 1] = s.p>> >>,
+                            IN e.out[x + 1] = s.o /\ (HasF(e, "ni") => (e.ni[x + 1] = s.i /\ e.np[x + 1] = s.p))>> >>,
                    {"StateSweep", "StateSweep." \o e.exp \o "." \o e.dir})
 
 \* exhaustive size sweep: per block of 4096 sizes the SHA-1 over (plaintext header, header decoded by
